@@ -170,6 +170,12 @@ func (e *Engine) log(ev Ev) uint64 {
 }
 
 func (e *Engine) violate(prop, rule, msg string, seq uint64) {
+	// the first instance of every (property, rule) is kept; the run goes on
+	for i := range e.viol {
+		if e.viol[i].Prop == prop && e.viol[i].Rule == rule {
+			return
+		}
+	}
 	if len(e.viol) < 64 {
 		e.viol = append(e.viol, Violation{prop, rule, msg, seq})
 	}
@@ -498,7 +504,7 @@ func (e *Engine) Run(plan *Plan, dec *core.Decider) *RunResult {
 	sim.Settle()
 
 	reason := e.schedule(func() bool { return e.clientsDone() }, false)
-	if reason == "" && len(e.viol) == 0 {
+	if reason == "" {
 		cl := &client{id: 99, prog: plan.Epilogue, isEpi: true}
 		e.epi = cl
 		cl.task = sim.Spawn("epi", 99, core.KindClient, func() { e.runClient(cl) })
@@ -510,7 +516,7 @@ func (e *Engine) Run(plan *Plan, dec *core.Decider) *RunResult {
 		reason = "panic"
 	}
 	res.PanicTxt = sim.PanicTxt
-	if reason == "" && len(e.viol) == 0 {
+	if reason == "" {
 		// normal end: every goroutine of the cache must be gone (C15)
 		sim.Settle()
 		for _, t := range sim.Tasks() {
@@ -522,9 +528,17 @@ func (e *Engine) Run(plan *Plan, dec *core.Decider) *RunResult {
 	desc := ""
 	if reason != "" {
 		desc = e.describeTasks()
+		e.checkStrandedWaiters()
 	}
-	if reason != "" || len(e.viol) > 0 {
+	if reason != "" {
 		res.LeftTasks = sim.KillAll()
+	} else {
+		for _, t := range sim.Tasks() {
+			if t.State() != core.StDone {
+				res.LeftTasks = sim.KillAll()
+				break
+			}
+		}
 	}
 	res.Abort = reason
 	e.simNanos = int64(time.Since(e.startT))
@@ -662,9 +676,6 @@ func (e *Engine) schedule(done func() bool, fair bool) string {
 		}
 		if e.sim.Step > e.plan.Sim.MaxSteps {
 			return "stepcap"
-		}
-		if len(e.viol) > 0 {
-			return ""
 		}
 		all := e.sim.Runnable()
 		// epilogue requests
@@ -1106,4 +1117,36 @@ func MeasureInternalCost() int64 {
 	measuredIntern = c.MaxCost() - c.RemainingCost()
 	c.Close()
 	return measuredIntern
+}
+
+// checkStrandedWaiters: when a run cannot make progress, a client still
+// blocked inside Wait() although a Clear or Close returned after that Wait was
+// invoked has not been released (C15).
+func (e *Engine) checkStrandedWaiters() {
+	n := int(e.nevs)
+	if n > maxEvs {
+		n = maxEvs
+	}
+	for _, cl := range e.clients {
+		if !(cl.inOp && cl.cur.K == OpWait && cl.task.State() == core.StRunning) {
+			continue
+		}
+		var waitInv uint64
+		for i := n - 1; i >= 0; i-- {
+			ev := &e.evs[i]
+			if ev.Kind == EvInvoke && ev.Op == OpWait && int(ev.Task) == cl.id {
+				waitInv = ev.Seq
+				break
+			}
+		}
+		for i := 0; i < n; i++ {
+			ev := &e.evs[i]
+			if ev.Kind == EvReturn && (ev.Op == OpClear || ev.Op == OpClose) && ev.Seq > waitInv && ev.Ref > 0 && ev.B == 0 {
+				// the Clear/Close must have started after the Wait was invoked to be obliged to release it
+				if ev.Ref > waitInv {
+					e.violate("C15", "waiter-not-released", fmt.Sprintf("client c%d has been blocked in Wait() since #%d although %s [#%d,#%d] completed meanwhile", cl.id, waitInv, OpNames[ev.Op], ev.Ref, ev.Seq), ev.Seq)
+				}
+			}
+		}
+	}
 }
